@@ -91,6 +91,14 @@ def run(ctx):
         r.analysed["value_start_provenance"] = sorted(at)
         if "arg1.base" not in at or "Add" not in d or not any(a.endswith("value.start") for a in own) or any(a.endswith(("name.start", "raw_range.start", "raw_range.end", "value.end")) for a in own):
             r.violate("iter_attrs|value-start", f"value location start is `{d[:120]}` (from {sorted(at)}), expected the tag's document offset (base) + the outline's value start", f2.loc())
+        fb_guards = []
+        for b_ in f2.blocks:
+            for st_ in b_["stmts"]:
+                if st_["k"] == "assign" and st_["rv"]["k"] == "bin" and st_["rv"]["op"] in ("Eq", "Ne") and "value.start" in f2.deep(st_["rv"]["a"]) + f2.deep(st_["rv"]["b"]):
+                    fb_guards.append((f2.deep(st_["rv"]["a"]), f2.deep(st_["rv"]["b"])))
+        r.inst("iter_attrs|fallback-only-for-unset-value", sample={"tests": [(a_[-30:], b_[-30:]) for a_, b_ in fb_guards]})
+        if len(fb_guards) != 1 or not any(x.startswith("const 0") for x in fb_guards[0]) or any("value.end" in x for x in fb_guards[0]):
+            r.violate("iter_attrs|fallback-only-for-unset-value", f"the fall-back location for an attribute without a value is chosen by {fb_guards} instead of `value.start == 0` (the unset range): an explicitly empty value (`alt=\"\"`) has a real position between its quotes and must keep it", f2.loc())
         r.inst("iter_attrs|valueless-fallback")
         if not any(a.endswith("name.end") for a in own):
             r.violate("iter_attrs|valueless-fallback", "the location of an attribute without a value is derived from its unset (0..0) value range alone: the presence marker NonZero::new(base + 0) is None in the first parsed buffer and `base..base` later, so name/value locations of `<input disabled>` depend on how the input was split into writes", f2.loc())
